@@ -24,6 +24,7 @@ fn dispatch(ctx: &Ctx) {
         "C15" => vcore::c15::run(ctx),
         "C16" => vcore::c16::run(ctx),
         "C17" => vcore::c17::run(ctx),
+        "C20" => vcore::c20::run(ctx),
         "C18" => vcore::c18::run(ctx),
         "C19" => vcore::c19::run(ctx),
         p => {
